@@ -18,10 +18,15 @@ RULE = {
         'lists per structure (including re-partitions of one union) and '
         'shared parsers; then 10-40 scheduler-chosen operations: call, '
         'repeat, same formula on another structure and - in the '
-        'fault-injecting configuration (odd run indices) - calls cut short '
-        'by SimAbort / MemoryError / RecursionError raised at a chosen line '
-        'event inside repository code; finally every distinct query is '
-        're-issued fault-free.  After every operation I1 (every pooled '
+        'fault-injecting configuration (run index = 1 mod 3) - calls cut '
+        'short by SimAbort / MemoryError / RecursionError raised at a chosen '
+        'line event inside repository code, or - in the interleaved-calls '
+        'configuration (run index = 2 mod 3) - a complete second modelcheck '
+        'call executed at a chosen line event inside the first one '
+        '(cooperative pre-emption: the deterministic model of a signal '
+        'handler, callback or second caller running between two lines of '
+        'the first call); finally every distinct query is re-issued '
+        'fault-free.  After every operation I1 (every pooled '
         'structure - states, transitions, every label set by value and by '
         'container identity, S0 - every formula object and fairness list '
         'equals its snapshot), I2 (a call in which no fault fired returns '
@@ -71,17 +76,32 @@ ASSUMPTIONS = {
 COMPONENTS = {'real': ['pyModelChecking (all modules)', 'lark'], 'stub': []}
 
 
+CONFIGS = ['fault_free', 'fault_injecting', 'interleaved_calls']
+
+
+def config_for(prop, i):
+    """C07 cycles through three configurations that are run and reported
+    separately; C19 is fault-free only."""
+    return CONFIGS[i % 3] if prop == 'C07' else 'fault_free'
+
+
+def plan_for(prop, seed, i):
+    cfgname = config_for(prop, i)
+    return c07.gen_plan(seed, prop, cfgname == 'fault_injecting',
+                        cfgname == 'interleaved_calls')
+
+
 def job(ctx, i):
     prop = ctx['prop']
     seed = core.run_seed(ctx['seed'], prop, ctx['tier'], i)
-    faults = prop == 'C07' and (i % 2 == 1)
-    plan = c07.gen_plan(seed, prop, faults)
+    plan = plan_for(prop, seed, i)
+    faults = plan['cfg']['faults']
     st, res = run_isolated(c07.execute, plan, ctx['timeout'])
     if st == 'timeout':
         return {'status': 'timeout'}
     if st != 'ok':
         return {'status': 'harness_error', 'detail': '{} {}'.format(st, res)}
-    cfgname = 'fault_injecting' if faults else 'fault_free'
+    cfgname = config_for(prop, i)
     probes = dict(res['probes'])
     probes['config_' + cfgname] = 1
     out = {'status': 'ok', 'evaluations': 1, 'steps': res['steps'],
